@@ -532,12 +532,10 @@ func (p *peerTask) RunEvent(time.Time) {
 				// announce the whole message, send part of it, go away
 				k.Bump("fault.peer_closes_mid_frame")
 				sconn.Write(fr[:min(2+a.sc.CutOctets, len(fr)-1)])
-				k.Sleep("peer.cut", 50*time.Millisecond)
-				if a.sc.RunSeed%2 == 0 {
-					sconn.Close()
-				} else {
-					sconn.Reset()
-				}
+				// (it stays long enough for everything it sent before to be served and answered, and
+				// closes rather than resets: a reset would take octets still in flight with it)
+				k.Sleep("peer.cut", 2*time.Second)
+				sconn.Close()
 				return
 			}
 			if len(fr) > 0 {
